@@ -197,8 +197,46 @@ type c07Cell struct {
 	expect string
 }
 
-func c07Cells() []c07Cell {
-	s := mainSkeleton()
+// deepSkeleton: nesting depth 4 (thorough tier).
+func deepSkeleton() *skeleton {
+	inner := &skNode{open: "for k := 0; k < 1; k++ {", shut: "}", loop: true, hdr: "k", items: []interface{}{
+		site(),
+		node("if c {", "", site(),
+			"switch n {",
+			&skNode{open: "case 1:", shut: "", sw: true, items: []interface{}{site(),
+				&skNode{open: "for ri, rv := range it {", shut: "}", loop: true, hdr: "ri", items: []interface{}{site()}},
+				site()}},
+			&skNode{open: "default:", shut: "", sw: true, items: []interface{}{site()}},
+			"}",
+			site()),
+		&skNode{open: "} else if n == 3 {", shut: "", items: []interface{}{site()}},
+		&skNode{open: "} else {", shut: "}", items: []interface{}{site(), node("if n == 4 {", "}", site())}},
+		site(),
+	}}
+	fnBody := &skNode{open: "func f(pp int) int {", shut: "}", fn: true, hdr: "pp", items: []interface{}{
+		site(),
+		&skNode{open: "for fk := 0; fk < 1; fk++ {", shut: "}", loop: true, hdr: "fk", items: []interface{}{
+			site(),
+			node("if c {", "}", site(), &skNode{open: "for c {", shut: "}", loop: true, items: []interface{}{site(), "break"}}, site()),
+		}},
+		site(),
+		"return 0",
+	}}
+	root := &skNode{items: []interface{}{"c := true", "n := 1", "it := []int{1, 2}", site(), fnBody, site(), inner, site(), "n = f(1)", site()}}
+	s := &skeleton{name: "deep", root: root}
+	s.index()
+	return s
+}
+
+func c07Cells(thorough bool) []c07Cell {
+	cells := c07CellsFor(mainSkeleton(), true)
+	if thorough {
+		cells = append(cells, c07CellsFor(deepSkeleton(), false)...)
+	}
+	return cells
+}
+
+func c07CellsFor(s *skeleton, withFixed bool) []c07Cell {
 	n := len(s.sites)
 	cells := []c07Cell{}
 	add := func(key string, content map[int]string, expectAccept bool) {
@@ -206,7 +244,7 @@ func c07Cells() []c07Cell {
 		if expectAccept {
 			e = "accept"
 		}
-		cells = append(cells, c07Cell{key: "main/" + key, src: s.render(content), expect: e})
+		cells = append(cells, c07Cell{key: s.name + "/" + key, src: s.render(content), expect: e})
 	}
 	defs := map[string]string{"short": "x := 1", "var": "var x int", "var-init": "var x int = 1", "slice": "x := []int{1}", "multi": "x, xb := 1, 2"}
 	uses := map[string]map[string]string{
@@ -335,6 +373,9 @@ func c07Cells() []c07Cell {
 		{"if-var-in-else", "c := true\nif c {\n\tq := 1\n} else {\n\tprint(q)\n}\n", false},
 		{"else-if-var-in-else", "c := true\nif c {\n} else if c {\n\tq := 1\n} else {\n\tprint(q)\n}\n", false},
 	}
+	if !withFixed {
+		return cells
+	}
 	for _, f := range fixed {
 		e := "reject"
 		if f.accept {
@@ -389,7 +430,7 @@ func (s *skeleton) headerSeesLater(h string, u int) bool {
 func checkC07(c *Check) {
 	c.Rule = "exhaustive over one block skeleton with 24 sites (top level, if / else-if / else, nested if, 3-clause for, range, while-for, switch cases inside and outside loops, a function body with nested blocks): every ordered pair (definition site, use site) x definition kind x use kind, redefinition variants, header variables (parameter, for-init, range), function definition x call site, break/continue/return/func at every site, import boundary uses at every site, plus fixed scope cells; expected verdict from a scope calculator over the block tree; both targets. Every cell is a distinct program; distinct = SHA-256 of source"
 	c.Assumptions = []string{"scope calculator: definition to end of block; header variables within their construct; functions after their top-level definition, not inside themselves; function bodies see globals defined earlier; no shadowing", "break directly inside a switch outside any loop is not asserted (legal in Go, excluded as undefined behaviour by C01)"}
-	cells := c07Cells()
+	cells := c07Cells(c.Thorough())
 	c.Exhaustive = true
 	c.Extra["table_cells"] = len(cells)
 	runProbes(c, bashProbeJudge)
